@@ -43,6 +43,8 @@ def strategy(tier):
         "other_first": st.sampled_from([False, False, True]),
         # the output directory is the parent of the input directory
         "out_parent": st.sampled_from([False, False, False, True]),
+        # the Settings object main() builds is used for an earlier cminx.document() call with other patterns first
+        "api_reuse": st.sampled_from([False, False, False, True]),
     })
 
 
@@ -188,7 +190,37 @@ def evaluate(case):
             argv.append("-r")
         for p in by_src["e"]:
             argv += ["-e", p]
-        run = S.run_main(argv, cwd=cwd, cfgdir=cfgdir, order=case["order"])
+        if case.get("api_reuse") and not case.get("other_first"):
+            import cminx
+            import copy as _copy
+            res.labels.append("settings-object-reused-with-other-patterns")
+            captured = []
+            orig = cminx.document
+            cminx.document = lambda f, s_: captured.append((f, s_))
+            try:
+                run = S.run_main(argv, cwd=cwd, cfgdir=cfgdir, order=case["order"])
+            finally:
+                cminx.document = orig
+            if run.exc is None and run.code == 0 and len(captured) == 1:
+                f_, st_ = captured[0]
+                real_filters = list(st_.input.exclude_filters)
+                st_.input.exclude_filters = ["zz_matches_nothing", "*.nothing"]
+                st_.output.directory = sb.path("out_first")
+                import io as _io, contextlib as _cl
+                with _cl.redirect_stdout(_io.StringIO()), _cl.redirect_stderr(_io.StringIO()), S.scandir_order(case["order"]):
+                    old = os.getcwd()
+                    os.chdir(cwd)
+                    try:
+                        cminx.document(f_, st_)
+                        st_.input.exclude_filters = real_filters
+                        st_.output.directory = out
+                        cminx.document(f_, st_)
+                    except BaseException as e:  # noqa
+                        run.exc = e
+                    finally:
+                        os.chdir(old)
+        else:
+            run = S.run_main(argv, cwd=cwd, cfgdir=cfgdir, order=case["order"])
         if run.exc is not None or run.code != 0:
             res.fail(exc_key(run.exc) if run.exc else f"exit-{run.code}", (repr(run.exc) + run.stderr)[-300:])
             return res
